@@ -6,6 +6,7 @@ mod group;
 mod probe;
 mod sexp;
 mod subj;
+mod timed;
 mod val;
 
 use sexp::Sexp;
@@ -24,6 +25,7 @@ fn run_case(case: &Sexp) -> String {
     "hotchain_t" => chain::threads::run_hotchain(body),
     "group_by" => group::run_group_by(body),
     "flatten" => flatten::run_flatten(body),
+    "timed" => timed::run_timed(body),
     "subject" => subj::run_subject(body),
     "behavior" => subj::run_behavior(body),
     "op2" => chain::local::run_op2(body),
